@@ -356,6 +356,39 @@ Section Rules.
     intros Hr args. rewrite orphan_check_rule by assumption. apply orphan_rule_b_spec.
   Qed.
 
+  (* ---------------------------------------------------------------------------------- *)
+  (* The solvers' size limit                                                              *)
+  (* ---------------------------------------------------------------------------------- *)
+
+  (* Both solvers give up (SLG: the LocalImplAllowed subgoal of the `forall` root goal flounders
+     in abstract_positive_literal; recursive: push_obligation sets cannot_prove) as soon as one
+     type of the goal has more than [max_size] nodes (truncate::needs_truncation measures each
+     outermost type on its own: [tsize]); the answer is then Ambiguous, and
+     perform_orphan_check accepts whatever `solve(..).is_some()`: such an impl always passes.
+     Recorded class [size_known_class]; max_size = 10 for slg_default, 30 for recursive_default. *)
+  Definition size_known_class (max_size : nat) (args : list ty) : bool :=
+    existsb (fun a => max_size <? tsize a) args.
+
+  Definition orphan_check_sized (max_size : nat) (args : list ty) : bool :=
+    size_known_class max_size args || orphan_check args.
+
+  (* the orphan check as it is run, outside the recorded class, is exactly the rule *)
+  Theorem orphan_partial : fv_fix = true -> forall max_size args,
+    size_known_class max_size args = false ->
+    (orphan_check_sized max_size args = true <-> orphan_rule args).
+  Proof.
+    intros Hr max_size args Hk. unfold orphan_check_sized. rewrite Hk. simpl.
+    now apply orphan_check_spec.
+  Qed.
+
+  (* an impl the rule allows passes, whatever its size *)
+  Theorem orphan_sized_complete : fv_fix = true -> forall max_size args,
+    orphan_rule args -> orphan_check_sized max_size args = true.
+  Proof.
+    intros Hr max_size args H. unfold orphan_check_sized.
+    apply orb_true_iff. right. now apply orphan_check_spec.
+  Qed.
+
   (* what the clauses derive for IsUpstream, whatever the two switches *)
   Theorem upstream_model_spec : forall t, holds (IsUpstream t) <-> upstream_model up_fix t = true.
   Proof.
@@ -412,6 +445,16 @@ Definition orphan_check_orig_data (x : oinput) : bool :=
 
 Definition orphan_rule_data (x : oinput) : bool :=
   orphan_rule_b (flags_of (o_adts x)) (o_trait_upstream x) (o_args x).
+
+(* ... as run by the two default solvers (max_size 10 / 30) *)
+Definition orphan_check_slg_data (x : oinput) : bool :=
+  orphan_check_sized true false (flags_of (o_adts x)) (o_trait_upstream x) 10 (o_args x).
+
+Definition orphan_check_rec_data (x : oinput) : bool :=
+  orphan_check_sized true false (flags_of (o_adts x)) (o_trait_upstream x) 30 (o_args x).
+
+Definition size_class_slg_data (x : oinput) : bool := size_known_class 10 (o_args x).
+Definition size_class_rec_data (x : oinput) : bool := size_known_class 30 (o_args x).
 
 (* single domain goals (IsUpstream / IsFullyVisible / IsLocal on a type) *)
 Record ginput := mkG { g_adts : list adt_decl; g_goal : dgoal }.
@@ -477,3 +520,17 @@ Example orphan_spec_nonvacuous_rejected :
   orphan_check_data (mkO true [mkAdt false false; mkAdt true true]
                          [TTuple [TScalar 0; TParam 0]; TAdt 1 [TParam 0; TAdt 0 []]]) = false.
 Proof. vm_compute. reflexivity. Qed.
+
+(* the size class: all-upstream `impl Rem0 for U2<U2<U1<U0>, U1<U0>>, U2<U1<U0>, U1<U0>>>` (11 type
+   nodes) passes the orphan check under the SLG solver although the rule rejects it *)
+Definition size_witness : oinput :=
+  mkO true [mkAdt true false; mkAdt true false; mkAdt true false]
+      [TAdt 2 [TAdt 2 [TAdt 1 [TAdt 0 []]; TAdt 1 [TAdt 0 []]]; TAdt 2 [TAdt 1 [TAdt 0 []]; TAdt 1 [TAdt 0 []]]]].
+
+Theorem orphan_size_refuted :
+  exists x, size_class_slg_data x = true /\ orphan_check_slg_data x = true /\ orphan_rule_data x = false.
+Proof. exists size_witness. vm_compute. repeat split; reflexivity. Qed.
+
+Example orphan_partial_nonvacuous :
+  size_class_slg_data f6_witness = false /\ orphan_check_slg_data f6_witness = true /\ orphan_rule_data f6_witness = true.
+Proof. vm_compute. repeat split; reflexivity. Qed.
